@@ -15,6 +15,7 @@
  */
 #pragma once
 
+#include <unifex/detail/verif_hooks.hpp>
 #include <unifex/config.hpp>
 #include <unifex/async_manual_reset_event.hpp>
 #include <unifex/get_stop_token.hpp>
@@ -214,6 +215,7 @@ private:
       }
 
       UNIFEX_ASSERT(opState + 2 > opState);
+      UNIFEX_VERIF_POINT(231);
     } while (!opState_.compare_exchange_weak(
         opState, opState + 2, std::memory_order_relaxed));
 
@@ -221,7 +223,9 @@ private:
   }
 
   friend void record_done(async_scope* scope) noexcept {
+    UNIFEX_VERIF_POINT(232);
     auto oldState = scope->opState_.fetch_sub(2, std::memory_order_release);
+    UNIFEX_VERIF_POINT(233);
 
     if (is_stopping(oldState) && op_count(oldState) == 1) {
       // the scope is stopping and we're the last op to finish
@@ -231,7 +235,9 @@ private:
 
   void end_of_scope() noexcept {
     // stop adding work
+    UNIFEX_VERIF_POINT(234);
     auto oldState = opState_.fetch_and(~stoppedBit, std::memory_order_release);
+    UNIFEX_VERIF_POINT(235);
 
     if (op_count(oldState) == 0) {
       // there are no outstanding operations to wait for
